@@ -131,16 +131,16 @@ def c13_nonneg (t : Tr) : Bool := !t.negative
 /-- the pure function equals the published formula, evaluated in `LegacyDec` arithmetic -/
 def c13_calc_formula (t : Tr) : Bool :=
   match t.op, t.resp with
-  | .calc p x epp b, .calc v next =>
+  | .sample p x epp b, .sample v next =>
     !t.ok || (v == provisionN p x epp b && (match next with | some w => w == provisionN p (x + 1) epp b | none => true))
-  | .calc _ _ _ _, _ => !t.ok
+  | .sample _ _ _ _, _ => !t.ok
   | _, _ => true
 
 /-- the bonding incentive lies between 1 and 1 + max variance: the provision lies between the
 values the formula gives for these two incentives -/
 def c13_calc_range (t : Tr) : Bool :=
   match t.op, t.resp with
-  | .calc p x epp _, .calc v _ =>
+  | .sample p x epp _, .sample v _ =>
     !t.ok || !p.valid ||
     (decide (scaleN (decayedN p x) S18 epp ≤ v) && decide (v ≤ scaleN (decayedN p x) (S18 + p.maxVariance) epp))
   | _, _ => true
@@ -148,7 +148,7 @@ def c13_calc_range (t : Tr) : Bool :=
 /-- fixed parameters and bonded ratio: the next period's provision is not larger -/
 def c13_calc_antitone (t : Tr) : Bool :=
   match t.op, t.resp with
-  | .calc p _ _ _, .calc v (some w) => !t.ok || !p.valid || decide (w ≤ v)
+  | .sample p _ _ _, .sample v (some w) => !t.ok || !p.valid || decide (w ≤ v)
   | _, _ => true
 
 /-- daily epochs: the period is the number of minting epochs divided by epochs-per-period -/
